@@ -28,7 +28,8 @@ PLAN = {
         sim=[("MC_Succ.cfg", [1], 1, {"MaxActs": 4, "MaxMsgs": 10, "MaxDepth": 3, "MaxBlocks": 4,
                                        "Feat": '{"finish", "succ", "ext", "ctx", "run", "typed", "task"}'})],
         profiles=[dict(feat={"finish", "succ", "ext", "ctx", "run", "typed", "task", "alog"}, ndest=2, init=[1, 2], maxlen=40,
-                       weights={"Exit": 4.0, "Finish": 1.0})]),
+                       weights={"Exit": 4.0, "Finish": 1.0})],
+        deferred=True),
     "C04": dict(
         exhaustive=[("MC_Core.cfg", [1], 1)],
         mc=[("MC_Scope.cfg", {"MaxActs": 3, "MaxMsgs": 4, "MaxBlocks": 4}), ("MC_Core.cfg", {}), ("MC_Abort.cfg", {"MaxMsgs": 4})],
@@ -37,7 +38,8 @@ PLAN = {
                        weights={"EnterCtx": 1.5, "EnterRun": 1.5, "EnterWith": 2.0, "Exit": 2.5}),
                   # destinations failing -- also with non-Exception exceptions that reach the application -- while blocks exit
                   dict(feat={"finish", "ctx", "run", "task", "ext"}, ndest=2, init=[1, 2], maxlen=40, maxblocks=8, dfault=0.15, abort=0.12,
-                       weights={"EnterCtx": 1.5, "EnterRun": 1.5, "EnterWith": 2.5, "Exit": 2.5})]),
+                       weights={"EnterCtx": 1.5, "EnterRun": 1.5, "EnterWith": 2.5, "Exit": 2.5})],
+        deferred=True),
     "C05": dict(
         mc=[("MC_Conc.cfg", {"MaxMsgs": 5, "MaxActs": 3})],
         sim=[("MC_Conc.cfg", [1], 1, {"NCtx": 4, "MaxActs": 5, "MaxMsgs": 10, "MaxBlocks": 3, "MaxDepth": 3, "Feat": '{"spawn", "ctx", "run", "finish"}'})],
@@ -179,6 +181,10 @@ def run(prop, tier):
         if plan.get("extra"):
             import checks_conc_extra
             getattr(checks_conc_extra, plan["extra"])(rep, tier)
+        if plan.get("deferred"):
+            # the Deferred face of the property (spec/Deferred.tla): end-message clauses for C03, context clauses for C04
+            import checks_deferred
+            checks_deferred.run_deferred(rep, tier)
         rep.cov["exhaustive"] = False
         rep.cov["explanation"] = ("TLC exhaustive within the listed constants for the model; implementation conformance is by "
                                   "trace validation of sampled executions")
